@@ -99,8 +99,24 @@ def facts_at(prog: Program, func: FuncInfo, node, canon_fn):
     else-branches), negated tests of earlier sibling `if <t>: ...raise/return/continue`, with
     helpers inlined, `and` split and `not (a and b)` left as a single negated fact."""
     facts = []
+    flags = {k: v for k, v in local_alias_map(func).items()
+             if isinstance(v, (ast.BoolOp, ast.Compare)) or (isinstance(v, ast.UnaryOp) and isinstance(v.op, ast.Not))}
 
-    def add(test, positive):
+    class _Flags(ast.NodeTransformer):
+        # `ok = a and b` ... `if ok:` establishes a and b: a flag bound once to a test stands for the test
+        def __init__(self, depth=0):
+            self.depth = depth
+
+        def visit_Name(self, n):
+            if n.id in flags and isinstance(n.ctx, ast.Load) and self.depth < 4:
+                return _Flags(self.depth + 1).visit(copy.deepcopy(flags[n.id]))
+            return n
+
+    def add(test, positive, expanded=False):
+        if flags and not expanded:
+            t2 = _Flags().visit(copy.deepcopy(test))
+            if ast.dump(t2) != ast.dump(test):
+                add(t2, positive, True)
         t = inline_helpers(prog, func, test)
         if positive:
             for c in _split_and(t):
